@@ -13,7 +13,8 @@ Model of the wire decoders of hickory-proto, statement by statement:
                           crates/server/src/server/request_handler.rs `Request::from_bytes`)
 
   rr/rdata/{tsig,cert,csync,tlsa,smimea,sshfp,openpgpkey}.rs, rr/record_type_set.rs,
-  dnssec/rdata/{ds,cds,dnskey,cdnskey,sig,rrsig,nsec,nsec3,nsec3param}.rs, `DNSSECRData::read`
+  rr/rdata/{caa,naptr}.rs, dnssec/rdata/{ds,cds,dnskey,cdnskey,key,sig,rrsig,nsec,nsec3,nsec3param}.rs,
+  `DNSSECRData::read`
 
 Record types and classes are their 16-bit codes.  RDATA codecs that are not modelled yet are
 *not* totalised away: they are a parameter `opq : Nat → Rd Bytes` of every function here (the
@@ -26,6 +27,7 @@ Panic sites made explicit (besides those of Model/Decoder.lean):
   * `read_records`      : `record.map(..).unwrap()` (TSIG arm; the closure matches the same
                           variant as the arm, so it is `Some` by construction — no branch)
   * `DNSSECRData::read` : `panic!("not a dnssec RecordType")`
+  * `KeyTrust::from(u16)`, `KeyUsage::from(u16)` : `panic!("All other bit fields ..")`
   * `TSIG::read_data`   : `end_idx - decoder.index()`
   * `Edns::from(&Record)`: `assert!(record_type == OPT)`, `panic!("rr_type doesn't match ..")`
 -/
@@ -87,6 +89,10 @@ inductive RData where
   | tlsa (usage selector matching : Nat) (d : Bytes)
   | sshfp (alg fp : Nat) (d : Bytes)
   | openpgpkey (d : Bytes)
+  /-- KEY: `flags()` reassembles trust | usage | signatory, which is the accepted flags word -/
+  | key (flags proto alg : Nat) (k : Bytes)
+  | caa (critical : Bool) (reserved : Nat) (tag value : Bytes)
+  | naptr (order pref : Nat) (flags services regexp : Bytes) (replacement : Name)
   /-- a record type whose codec is not modelled: whatever the parameter reader returned -/
   | opaque (t : Nat) (v : Bytes)
   deriving Repr, DecidableEq, Inhabited
@@ -165,7 +171,7 @@ def T_TSIG : Nat := 250
 def OP_UPDATE : Nat := 5
 
 /-- type codes whose RDATA codec has no model yet (they go through the parameter `opq`) -/
-def unmodelled : List Nat := [25, 257, 65, 35, 64]      -- KEY CAA HTTPS NAPTR SVCB
+def unmodelled : List Nat := [65, 64]                   -- HTTPS SVCB
 
 /-- `RecordType::is_dnssec` -/
 def isDnssec (t : Nat) : Bool := [48, 60, 59, 43, 25, 47, 50, 51, 46, 24, 250].contains t
@@ -360,8 +366,18 @@ def readNsec3Head : Rd (Bool × Nat × Bytes) := do
         let salt ← readSlice saltLen
         pure (decide (flags % 2 = 1), iter, salt)
 
-/-- `DNSSECRData::read` (after `RData::read` has already taken TSIG); KEY has no model yet -/
-def readDnssec (opq : Nat → Rd Bytes) (t : Nat) : Rd RData :=
+/-- `[0-9a-zA-Z]` -/
+def isAlnum (c : Nat) : Bool := (48 ≤ c && c ≤ 57) || (97 ≤ c && c ≤ 122) || (65 ≤ c && c ≤ 90)
+
+/-- `read_tag` of caa.rs: `len` characters, each alphanumeric -/
+def readTag : Nat → Bytes → Rd Bytes
+  | 0, acc => pure acc
+  | n + 1, acc => do
+    let c ← pop
+    if isAlnum c then readTag n (acc ++ [c]) else fail       -- CaaTagInvalid
+
+/-- `DNSSECRData::read` (after `RData::read` has already taken TSIG) -/
+def readDnssec (t : Nat) : Rd RData :=
   if t = 43 then do                                          -- DS
     let tag ← readU16; let alg ← pop; let dt ← pop
     let d ← readVecToEnd
@@ -414,8 +430,18 @@ def readDnssec (opq : Nat → Rd Bytes) (t : Nat) : Rd RData :=
     let (optOut, iter, salt) ← readNsec3Head
     pure (.nsec3param optOut iter salt)
   else if t = 25 then do                                     -- KEY
-    let v ← opq t
-    pure (.opaque t v)
+    let flags ← readU16
+    -- `flags & 0b0010_1100_1111_0000 == 0`
+    if (flags / 8192) % 2 ≠ 0 ∨ (flags / 1024) % 4 ≠ 0 ∨ (flags / 16) % 16 ≠ 0 then fail   -- KeyFlagsReserved
+    -- `KeyTrust::from` / `KeyUsage::from`: a `match` on two masked bits with a `panic!` default arm
+    else if (flags / 16384) % 4 > 3 then Rd.panic "KeyTrust::from:All other bit fields should have been cleared"
+    else if (flags / 256) % 4 > 3 then Rd.panic "KeyUsage::from:All other bit fields should have been cleared"
+    else if (flags / 4096) % 2 = 1 then fail                 -- ExtendedKeyFlagsUnsupported
+    else
+      let proto ← pop
+      let alg ← pop
+      let k ← readVecToEnd
+      pure (.key flags proto alg k)
   else Rd.panic "DNSSECRData::read:not a dnssec RecordType"
 
 /-- the `match record_type { .. }` of `RData::read` -/
@@ -489,7 +515,25 @@ def readRDataBody (opq : Nat → Rd Bytes) (t : Nat) : Rd RData :=
   else if t = 61 then do                                     -- OPENPGPKEY
     let d ← readVecToEnd
     pure (.openpgpkey d)
-  else if isDnssec t then readDnssec opq t                   -- `r if r.is_dnssec()`
+  else if t = 257 then do                                    -- CAA
+    let flags ← pop
+    let tagLen ← pop
+    if tagLen = 0 ∨ tagLen > 15 then fail                    -- CaaTagInvalid
+    else
+      let tag ← readTag tagLen []
+      let v ← readVecToEnd
+      pure (.caa (decide (flags / 128 = 1)) (flags % 128) tag v)
+  else if t = 35 then do                                     -- NAPTR
+    let order ← readU16
+    let pref ← readU16
+    let flags ← readCharacterData
+    if !flags.all isAlnum then fail                          -- NaptrFlagsInvalid
+    else
+      let services ← readCharacterData
+      let regexp ← readCharacterData
+      let n ← Rd.name
+      pure (.naptr order pref flags services regexp n)
+  else if isDnssec t then readDnssec t                       -- `r if r.is_dnssec()`
   else if unmodelled.contains t then do
     let v ← opq t
     pure (.opaque t v)
